@@ -135,6 +135,37 @@ def _passes(call: ast.Call, callee: FuncInfo, pname: str, caller_param: str, dep
     return False
 
 
+def _sets_option(call: ast.Call, callee: FuncInfo, pname: str) -> bool:
+    if any(k.arg == pname for k in call.keywords) or any(k.arg is None for k in call.keywords):
+        return True
+    names = _callee_param_names(callee)
+    if pname in names:
+        idx = names.index(pname)
+        if callee.is_method and not callee.is_static and isinstance(call.func, ast.Attribute):
+            pass
+        return len(call.args) > idx or any(isinstance(a, ast.Starred) for a in call.args)
+    return False
+
+
+def _arms(n: ast.AST) -> List[Tuple[int, str]]:
+    from ..loader import parent
+
+    out: List[Tuple[int, str]] = []
+    ch: Optional[ast.AST] = n
+    p = parent(n)
+    while p is not None:
+        if isinstance(p, ast.If):
+            arm = "body" if any(ch is x for x in p.body) else "orelse" if any(ch is x for x in p.orelse) else "test"
+            out.append((id(p), arm))
+        ch, p = p, parent(p)
+    return out
+
+
+def _exclusive(a: ast.AST, b: ast.AST) -> bool:
+    aa, bb = dict(_arms(a)), dict(_arms(b))
+    return any(k in bb and bb[k] != v and "test" not in (v, bb[k]) for k, v in aa.items())
+
+
 def rule_forward(prog: Program, modules: Optional[Set[str]] = None) -> List[Instance]:
     out: List[Instance] = []
     for fi in prog.all_functions(modules):
@@ -165,6 +196,18 @@ def rule_forward(prog: Program, modules: Optional[Set[str]] = None) -> List[Inst
                 cid = f"{fi.qual}#forward:{callee.name}:{p}"
                 if any(_passes(call, callee, p, p) for call, _ in sites):
                     out.append(Instance("R-FORWARD", cid, OK, f"{p} reaches {callee.qual}", fi.where(sites[0][0])))
+                    # sibling call sites: the same callee called several times from one function, the option handed over
+                    # at one site and left to its default at another (Engler: inconsistent within one function)
+                    if len(sites) >= 2 and (fi.qual, callee.name, p) not in NOFORWARD:
+                        passing = [call for call, _c in sites if _passes(call, callee, p, p)]
+                        for k, (call, _c) in enumerate(sites):
+                            # only true alternatives: the site sits in another arm of the same `if` as a site that passes
+                            # the option, and does not set the option at all (an explicit other value is a decision)
+                            if _sets_option(call, callee, p) or not any(_exclusive(call, q) for q in passing):
+                                continue
+                            if not (_passes(call, callee, p, p) or _passes(call, callee, p, p, org.deps)):
+                                out.append(Instance("R-FORWARD", f"{cid}:site{k}", BAD,
+                                                    f"`{short(call, 60)}` leaves `{p}` to {callee.name}'s default although {fi.name} passes its own `{p}` to the same callee at another call site: the two branches work with different values of the option", fi.where(call)))
                     continue
                 # the caller may have renamed/normalised it:  crs = norm_crs(crs) is still `crs`
                 key = (fi.qual, callee.name, p)
